@@ -286,7 +286,7 @@ static int run_cmd(char *op, int *a, int na) {
     if (IS("init")) { node_init(); }
     else if (IS("start")) { CONodeStart(&node); }
     else if (IS("stop")) { CONodeStop(&node); }
-    else if (IS("restart")) { restart(); }
+    else if (IS("restart")) { restart(); CONodeStart(&node); }
     else if (IS("rx")) {
         memset(&rxq, 0, sizeof rxq); rxq.Identifier = (uint32_t)a[0]; rxq.DLC = (uint8_t)a[1];
         for (int i = 0; i < 8 && i + 2 < na; i++) rxq.Data[i] = (uint8_t)a[i + 2];
@@ -437,6 +437,12 @@ static void run_behaviour(void) {
             for (uint32_t i = 0; i < pg->Size; i++) { pg->Start[i] = (int)(6 + i) < na ? (uint8_t)a[6 + i] : 0; para_def[g][i] = pg->Start[i]; }
             pg->Default = a[5] ? para_def[g] : 0;
             add_blk((uint16_t)(0xFF00 + g), 0, pg->Start, pg->Size, 0, -1);
+            continue;
+        }
+        if (strcmp(op, "paraalias") == 0) {   /* g parent ramoff nvmoff size type value hasdef : group inside the parent's RAM */
+            int g = a[0]; CO_PARA *pg = &para[g]; CO_PARA *pp = &para[a[1]]; if (g >= npara) npara = g + 1;
+            pg->Offset = (uint32_t)a[3]; pg->Size = (uint32_t)a[4]; pg->Type = (CO_NMT_RESET)a[5]; pg->Value = (uint32_t)a[6];
+            pg->Start = pp->Start + a[2]; para_def[g] = para_def[a[1]] + a[2]; pg->Default = a[7] ? para_def[g] : 0; pg->Ident = 0;
             continue;
         }
         first_item = 1; fputs("S ", stdout);
